@@ -101,20 +101,66 @@ def _json_bytes(x):
     return json.dumps(kdrv.plain(x), sort_keys=True, default=str).encode('ascii', 'backslashreplace')
 
 
+CP_FIELDS = ['block_cipher_mode', 'padding_method', 'hashing_algorithm', 'key_role_type', 'digital_signature_algorithm',
+             'cryptographic_algorithm', 'random_iv', 'iv_length', 'tag_length', 'fixed_field_length',
+             'invocation_field_length', 'counter_length', 'initial_counter_value']
+
+
+def _all_none(v):
+    return v is None or (v[0] == 'l' and all(_all_none(y) for y in v[1]))
+
+
+def _norm(v):
+    """An absent sub-structure and one whose every field is absent are the same information."""
+    return None if _all_none(v) else v
+
+
+def cp_val(cp_obj):
+    """Cryptographic parameters: core struct, Pie dictionary, or None -> every field, in a fixed order."""
+    if cp_obj is None or cp_obj == {}:
+        return None
+    get = (lambda n: cp_obj.get(n)) if isinstance(cp_obj, dict) else (lambda n: getattr(cp_obj, n))
+    return _norm(('l', [to_val(get(n)) for n in CP_FIELDS]))
+
+
+def key_info_val(ki):
+    if ki is None or ki == {}:
+        return None
+    if isinstance(ki, dict):
+        return _norm(('l', [to_val(ki.get('unique_identifier')), cp_val(ki.get('cryptographic_parameters'))]))
+    return _norm(('l', [to_val(ki.unique_identifier), cp_val(ki.cryptographic_parameters)]))
+
+
+def kwd_val(w):
+    """Key wrapping data: core KeyWrappingData, Pie dictionary, or None -> every field and sub-field."""
+    if w is None or w == {}:
+        return None
+    if isinstance(w, dict):
+        return _norm(('l', [to_val(w.get('wrapping_method')), key_info_val(w.get('encryption_key_information')),
+                            key_info_val(w.get('mac_signature_key_information')), to_val(w.get('mac_signature')),
+                            to_val(w.get('iv_counter_nonce')), to_val(w.get('encoding_option'))]))
+    return _norm(('l', [to_val(w.wrapping_method), key_info_val(w.encryption_key_information),
+                        key_info_val(w.mac_signature_key_information), to_val(w.mac_signature),
+                        to_val(w.iv_counter_nonce), to_val(w.encoding_option)]))
+
+
 def secret_val(x):
-    """Canonical view of a managed object, core (kmip.core.secrets) or Pie (kmip.pie.objects)."""
+    """Canonical view of a managed object, core (kmip.core.secrets) or Pie (kmip.pie.objects): every field the Pie
+    object model carries, including every sub-field of the key wrapping data."""
     def kb(o):
         b = o.key_block
         return [('i', b.key_format_type.value.value), ('b', bytes(b.key_value.key_material.value)),
                 ('i', b.cryptographic_algorithm.value.value) if b.cryptographic_algorithm is not None else None,
-                ('i', b.cryptographic_length.value) if b.cryptographic_length is not None else None]
+                ('i', b.cryptographic_length.value) if b.cryptographic_length is not None else None,
+                kwd_val(b.key_wrapping_data)]
     if isinstance(x, (csecrets.SymmetricKey, csecrets.PublicKey, csecrets.PrivateKey)):
         code = {csecrets.SymmetricKey: 2, csecrets.PublicKey: 3, csecrets.PrivateKey: 4}[type(x)]
         return ('l', [('i', code)] + kb(x))
     if isinstance(x, (pobjects.SymmetricKey, pobjects.PublicKey, pobjects.PrivateKey)):
         return ('l', [('i', x.object_type.value), ('i', x.key_format_type.value), ('b', bytes(x.value)),
                       ('i', x.cryptographic_algorithm.value) if x.cryptographic_algorithm is not None else None,
-                      ('i', x.cryptographic_length) if x.cryptographic_length is not None else None])
+                      ('i', x.cryptographic_length) if x.cryptographic_length is not None else None,
+                      kwd_val(x.key_wrapping_data)])
     if isinstance(x, csecrets.Certificate):
         return ('l', [('i', 1), ('i', x.certificate_type.value.value), ('b', bytes(x.certificate_value.value))])
     if isinstance(x, pobjects.Certificate):
@@ -381,6 +427,72 @@ def gen_bytes(rng, lo=0, hi=40):
 
 
 FACTORY = pie_factory.ObjectFactory()
+CA_ = enums.CryptographicAlgorithm
+
+
+def gen_cp_core(rng, salt):
+    """CryptographicParameters with a random subset of (truthy) fields; `salt` makes two structures pairwise different."""
+    menu = {
+        'block_cipher_mode': [enums.BlockCipherMode.CBC, enums.BlockCipherMode.GCM, enums.BlockCipherMode.NIST_KEY_WRAP, enums.BlockCipherMode.CTR],
+        'padding_method': [enums.PaddingMethod.PKCS5, enums.PaddingMethod.PSS, enums.PaddingMethod.OAEP, enums.PaddingMethod.PKCS1v15],
+        'hashing_algorithm': [enums.HashingAlgorithm.SHA_256, enums.HashingAlgorithm.SHA_1, enums.HashingAlgorithm.SHA_512, enums.HashingAlgorithm.MD5],
+        'key_role_type': [enums.KeyRoleType.KEK, enums.KeyRoleType.BDK, enums.KeyRoleType.MKAC, enums.KeyRoleType.DEK],
+        'digital_signature_algorithm': [enums.DigitalSignatureAlgorithm.SHA256_WITH_RSA_ENCRYPTION, enums.DigitalSignatureAlgorithm.SHA1_WITH_RSA_ENCRYPTION,
+                                        enums.DigitalSignatureAlgorithm.DSA_WITH_SHA1, enums.DigitalSignatureAlgorithm.ECDSA_WITH_SHA256],
+        'cryptographic_algorithm': [CA_.AES, CA_.RSA, CA_.HMAC_SHA256, CA_.TRIPLE_DES],
+        'random_iv': [True], 'iv_length': [96, 128, 64, 32], 'tag_length': [12, 16, 8, 4], 'fixed_field_length': [32, 16, 8, 4],
+        'invocation_field_length': [64, 32, 16, 8], 'counter_length': [32, 16, 8, 64], 'initial_counter_value': [1, 2, 3, 4]}
+    kw = {}
+    for n, vals in menu.items():
+        if rng.random() < 0.6:
+            kw[n] = vals[(salt + rng.randrange(2) * 2) % len(vals)]      # salt 0 / 1 pick from disjoint halves
+    if not kw:
+        kw['block_cipher_mode'] = menu['block_cipher_mode'][salt % 4]
+    return cattrs.CryptographicParameters(**kw)
+
+
+def gen_wrapping_data(rng, shape=None):
+    """KeyWrappingData with every optional sub-structure present or absent (shape picks which) and pairwise
+    different values in the two key informations."""
+    shape = shape if shape is not None else rng.choice(['both', 'both', 'enc-only', 'mac-only', 'both-no-params', 'enc-params-only',
+                                                        'mac-params-only'])
+    eki = mski = None
+    if shape in ('both', 'enc-only', 'both-no-params', 'enc-params-only', 'mac-params-only'):
+        eki = cobjects.EncryptionKeyInformation(
+            unique_identifier='e' + gen_uid(rng),
+            cryptographic_parameters=gen_cp_core(rng, 0) if shape in ('both', 'enc-only', 'enc-params-only') else None)
+    if shape in ('both', 'mac-only', 'both-no-params', 'enc-params-only', 'mac-params-only'):
+        mski = cobjects.MACSignatureKeyInformation(
+            unique_identifier='m' + gen_uid(rng),
+            cryptographic_parameters=gen_cp_core(rng, 1) if shape in ('both', 'mac-only', 'mac-params-only') else None)
+    if shape == 'enc-only':
+        method = enums.WrappingMethod.ENCRYPT
+    elif shape == 'mac-only':
+        method = enums.WrappingMethod.MAC_SIGN
+    else:
+        method = rng.choice([enums.WrappingMethod.ENCRYPT_THEN_MAC_SIGN, enums.WrappingMethod.MAC_SIGN_THEN_ENCRYPT])
+    return cobjects.KeyWrappingData(
+        wrapping_method=method, encryption_key_information=eki, mac_signature_key_information=mski,
+        mac_signature=(gen_bytes(rng, 4, 32) if mski is not None and rng.random() < 0.7 else None),
+        iv_counter_nonce=(gen_bytes(rng, 8, 16) if rng.random() < 0.5 else None),
+        encoding_option=rng.choice([None, enums.EncodingOption.NO_ENCODING, enums.EncodingOption.TTLV_ENCODING])), shape
+
+
+def gen_wrapped_key(rng, shape=None):
+    """(core key whose KeyBlock carries Key Wrapping Data, object type, shape) - core constructors only."""
+    from kmip.core import misc as cmisc
+    kind = rng.randrange(3)
+    cls, ot, fmt, alg, length = [
+        (csecrets.SymmetricKey, enums.ObjectType.SYMMETRIC_KEY, enums.KeyFormatType.RAW, CA_.AES, rng.choice([128, 256])),
+        (csecrets.PublicKey, enums.ObjectType.PUBLIC_KEY, enums.KeyFormatType.X_509, CA_.RSA, 2048),
+        (csecrets.PrivateKey, enums.ObjectType.PRIVATE_KEY, enums.KeyFormatType.PKCS_8, CA_.RSA, 2048)][kind]
+    kwd, shape = gen_wrapping_data(rng, shape)
+    kb = cobjects.KeyBlock(
+        key_format_type=cmisc.KeyFormatType(fmt), key_compression_type=None,
+        key_value=cobjects.KeyValue(cobjects.KeyMaterial(gen_bytes(rng, 8, 48))),       # wrapped: length unrelated to `length`
+        cryptographic_algorithm=cattrs.CryptographicAlgorithm(alg), cryptographic_length=cattrs.CryptographicLength(length),
+        key_wrapping_data=kwd)
+    return cls(kb), ot, shape
 
 
 def gen_secret(rng):
@@ -643,8 +755,11 @@ def p_locate(rng, v):
     return payloads.LocateResponsePayload(unique_identifiers=[gen_uid(rng) for _ in range(rng.choice([0, 1, 1, 2, 5]))])
 
 
-def p_get(rng, v):
-    s, ot = gen_secret(rng)
+def p_get(rng, v, shape=None):
+    if shape is not None or rng.random() < 0.4:
+        s, ot, _ = gen_wrapped_key(rng, shape)
+    else:
+        s, ot = gen_secret(rng)
     return payloads.GetResponsePayload(object_type=ot, unique_identifier=gen_uid(rng), secret=s)
 
 
